@@ -13,6 +13,7 @@ import Driver.Derive
 import Driver.Proto
 import Driver.Rand
 import Driver.Heap
+import Driver.BigInt
 /-!
   `tvdrv`: one line in, one line out. The first token selects the model.
   Unknown or malformed lines answer `bad-op` (never a default).
@@ -94,6 +95,10 @@ def dispatch (st : DState) (line : String) : DState × String :=
     | none => (st, "bad-op")
   | "X" :: rest =>
     match Driver.Sym.handle rest with
+    | some out => (st, out)
+    | none => (st, "bad-op")
+  | "N" :: rest =>
+    match Driver.Bi.handle rest with
     | some out => (st, out)
     | none => (st, "bad-op")
   | _ => (st, "bad-op")
